@@ -121,3 +121,14 @@ def selftest():
     assert m["CALA"]["OXT"][:2] == (-0.5, 1.4) and m["CALA"]["H"][:2] == (0.3, 1.0)
     assert m["ALA"]["H"][:2] == (0.3, 1.0) and "NALA" not in m
     assert lookup("AMBER", "WAT", "O") is not None
+
+
+@lru_cache(maxsize=None)
+def golden_support():
+    """Pinned (force field -> state -> parameterised atom names) of the repaired tree: which states
+    every built-in force field is known to cover.  Used where a property speaks about force fields
+    that "define" a residue class - support that silently disappears is a regression."""
+    import json
+    from pathlib import Path
+
+    return json.loads((Path(__file__).resolve().parent / "data" / "golden_support.json").read_text())
